@@ -406,7 +406,7 @@ def correspondence(ctx: core.Ctx) -> None:
         rnd.shuffle(sdes)
         for kind, sde in zip(PERTURBATIONS, sdes):
             check_case(ctx, p, kind, sde, rnd.getrandbits(32), "rebuild")
-        if i < ctx.budget(8, 60):
+        if i < ctx.budget(6, 60):
             hashseed_case(ctx, p, (rnd.randint(1, 1000), rnd.randint(1001, 2000)), "hashseed")
 
 
